@@ -395,6 +395,10 @@ def run(ctx, cases_override=None):
                 fails += run_vt(ctx, [l]); continue
             if op in DRV_OF_OP:
                 fails += run_pc(ctx, replay=cases_override); break
+            if op == "nested":
+                f, _, _ = diff_run(ctx, "adapters3p", [l], env={"OMP_NUM_THREADS": "4", "OMP_NESTED": "false", "OMP_MAX_ACTIVE_LEVELS": "1"},
+                                   model_lines=[l.replace(" nested ", " ", 1)])
+                fails += f; continue
             drv = "adapters3p" if op in ("eigen", "eigen_map", "eigen_unc", "ublas") else "adapters_idx" if op == "idx" else "adapters"
             if op in ("reorder_solve", "scaled_solve"): fails += run_solves(ctx, [l])
             else:
@@ -445,6 +449,13 @@ def run(ctx, cases_override=None):
     f, impl3, _ = diff_run(ctx, "adapters3p", tp, theorem="Eigen / uBlas adapters expose the source matrix (correspondence only)")
     fails += f
     fails += dims_oracle(ctx, tp, impl3)
+    # the same views taken from inside an active parallel region of the caller (4 threads configured, inner team of one): the copy
+    # into the internal CRS format must not depend on the team that executes it (seeded C17-7)
+    ntp = [l.replace(" ", " nested ", 1) for l in tp]
+    f, _, _ = diff_run(ctx, "adapters3p", ntp, env={"OMP_NUM_THREADS": "4", "OMP_NESTED": "false", "OMP_MAX_ACTIVE_LEVELS": "1"}, model_lines=tp,
+                       theorem="Eigen / uBlas / tuple adapters copied into the internal CRS format from inside an active parallel region "
+                               "(reduced inner team) expose the source matrix")
+    fails += f
     # ---- S: solves through reorder / scaled_problem
     fails += run_solves(ctx, solve_cases(tier, seed))
     # ---- P: row order
